@@ -1770,8 +1770,11 @@ class NNDescent:
             )
 
         indices, dists = self._deheap_function(indices, dists)
-        # Sort to input graph_data order
+        # Sort to input graph_data order; slots for which no neighbor was
+        # found stay -1 (fancy indexing would map -1 to the last data point)
+        unfilled = indices < 0
         indices = self._vertex_order[indices]
+        indices[unfilled] = -1
 
         if self._distance_correction is not None:
             dists = self._distance_correction(dists)
